@@ -84,7 +84,7 @@ def task(W, payload):
     r = random.Random(f"C06:{payload['seed']}:{payload['index']}")
     prog = Gen(r, Opts(max_strats=3, allow_array_pop=True, allow_requests=False, allow_computed=False, max_flows=3,
                        allow_adjust=False, allow_mixing=False, allow_inf_adjust=False, rebalance_prob=0.8,
-                       rebalance_repeat_bias=(0.6 if payload["index"] % 2 else 0.0), shuffle_split_bias=0.5, force_strat=bool(payload["index"] % 2))).program()
+                       rebalance_repeat_bias=(0.6 if payload["index"] % 2 else 0.0), shuffle_split_bias=0.5, inexact_split_bias=0.3, force_strat=bool(payload["index"] % 2))).program()
     S = fresh_session(W)
     out = mk_out(prog)
     if not S.build(prog["build"]):
@@ -101,7 +101,8 @@ def task(W, payload):
         x0 = np.array(py["x0"])
         # oracle on the real code alone: totals per original compartment are preserved when every literal split sums to one
         has_array = any(op["op"] == "init_pop_array" for op in prog["build"])
-        if not has_array:
+        inexact = any(prog["meta"]["feat"].get(k) for k in ("split:sum_within_tolerance", "split:two_independent_params"))
+        if not has_array and not inexact:
             dist_op = [op for op in prog["build"] if op["op"] == "init_pop"][0]
             # evaluate the declared distribution with the Lean-independent tiny evaluator
             from fractions import Fraction
@@ -126,6 +127,27 @@ def task(W, payload):
             if rr["ok"] and not vec_close(rr["outputs"][0], py["x0"], 1e-12):
                 fail(out, f"row 0 of outputs differs from the initial population ({solver})", "c06", payload, row0=rr["outputs"][0], x0=py["x0"],
                      program=prog["build"], params=prog["params"])
+    # the public accessor after a run whose runner has only SOME parameters run-time-supplied: `get_initial_population(p1)` must be the
+    # population at p1, not at the values an earlier run froze
+    if py.get("ok") and prog["params"] and payload["index"] % 2 == 0 and not any(op["op"] == "init_pop_array" for op in prog["build"]):
+        keys = sorted(prog["params"])
+        p0 = {k: float(Fr(v)) for k, v in prog["params"].items()}
+        p1 = {k: q(Fr(v) * Fr(3, 2)) for k, v in prog["params"].items()}
+        dyn = [k for k in keys if r.random() < 0.4]
+        try:
+            S.I.model.run(parameters=dict(p0), solver="euler", dyn_params=list(dyn), rebuild=True)
+            ser = S.I.model.get_initial_population({k: float(Fr(v)) for k, v in p1.items()})
+            got = [float(v) for v in ser.values]
+            ln1 = S.L.send({"op": "init_pop_eval", "params": [[k, v] for k, v in p1.items()]})
+            out["evals"] += 1
+            if ln1.get("ok"):
+                out["cases"].append(h + ":accessor_after_partial_runner")
+                if not vec_close(got, [float(v) for v in ln1["x0"]], 1e-12):
+                    out["diffs"].append({"stage": "S6", "what": "get_initial_population(p1) after model.run(p0, dyn_params=subset)", "prescribed": True,
+                                         "impl": got, "model": [float(v) for v in ln1["x0"]], "dyn_params": dyn, "p1": p1,
+                                         "task": {"module": "c06", "fn": "task", "payload": payload}, "program": prog["build"]})
+        except BaseException as e:
+            bump(out, "accessor_sequence_error:" + type(e).__name__)
     if payload["index"] == 0:
         out["sample"] = {"program": prog["build"], "params": prog["params"], "x0": py.get("x0")}
     return out
